@@ -311,6 +311,8 @@ CHECKS = {
              "shards": {"quick": 1, "thorough": 1}},
             {"run": "^TestC16Random$", "race": True, "n": {"quick": 500, "thorough": 2500},
              "shards": {"quick": 2, "thorough": 16}},
+            # several instances side by side (package-level state) and big caches (>= 33000 entries)
+            {"run": "^TestC16Scale$", "race": True, "n": {"quick": 6, "thorough": 24}, "shards": {"quick": 1, "thorough": 4}},
         ],
     },
     "C17": {
